@@ -112,7 +112,7 @@ def translate(src, tag, mode):
     r = _sh([os.path.join(BIN, "okl2cpp"), mode, okl, dev, lau])
     if r.returncode != 0:
         return None, r.stdout[-300:]
-    res = {"device": open(dev).read()}
+    res = {"device": open(dev).read(), "diag": r.stdout[-2000:]}
     if mode in GPU_MODES:
         res["launcher"] = open(lau).read()
     return res, ""
@@ -335,6 +335,12 @@ def run_config(kernel, mode, cfg, trace=True):
         return [("rejected", why)], {}, {}
     so, kind, nk, why = compile_backend(mode, tr, cfg.get("variant", "static"))
     if so is None:
+        if "Variable not defined in this scope" in tr.get("diag", ""):
+            # the translator itself printed this error for a device kernel that reads a variable declared by the
+            # kernel's host-side code, and carried on (it does not count the message as a failure)
+            return [("host-variable-not-passed-to-device-kernel",
+                     "the translator printed `Variable not defined in this scope`, still reported success, and its output does not compile: "
+                     + why[-300:])], {}, {}
         return [("translation-does-not-compile", why[-500:])], {}, {}
     srv = server()
     sw = [tuple(x) for x in cfg.get("switches", [])]
